@@ -30,7 +30,9 @@ import zlib
 from . import common, parselib, runlib
 
 BOUNDS = {'quick': [('C20_Blocks', 3, 30000)], 'thorough': [('C20_Blocks', 3, None), ('C20_Blocks', 4, 200000)]}
-OPT_DIRS = ['# doctest: +ELLIPSIS', '# doctest: +NORMALIZE_WHITESPACE', '# doctest:+ELLIPSIS']
+OPT_DIRS = ['# doctest: +ELLIPSIS', '# doctest: +NORMALIZE_WHITESPACE', '# doctest:+ELLIPSIS', '# doctest: +ELLIPSIS +NORMALIZE_WHITESPACE',
+            '# doctest: +REPORT_NDIFF, +ELLIPSIS']
+SKIP_DIRS = ['# doctest: +SKIP', '# doctest: +ELLIPSIS +SKIP', '# doctest:+SKIP', '# doctest: +SKIP, +ELLIPSIS']
 
 
 class _Recorder(doctest.DocTestRunner):
@@ -103,10 +105,15 @@ def extra(case, lines, rot):
         ln = sid_first_line[sid]
         indent = work[ln][:len(work[ln]) - len(work[ln].lstrip())]
         if b['shape'] == 'exc':
-            msg = 'm%d' % sid if 'detail' not in work[ln] else 'm%d: detail' % sid
-            wl = ['Traceback (most recent call last):'] + (['  File "<stdin>", line 1, in <module>'] if len(idxs) == 3 else []) + ['ValueError: ' + msg]
+            import traceback
+            ei = rec.boom.get(ln)
+            if ei is None:
+                raise common.MachineryError('the raising example at line %d did not raise\n%s' % (ln, '\n'.join(work)))
+            final = traceback.format_exception_only(ei[0], ei[1])[-1].rstrip('\n')        # what the REPL shows last
+            hdr = ['Traceback (most recent call last):', 'Traceback (innermost last):'][sid % 2]
+            wl = [hdr] + (['  File "<stdin>", line 1, in <module>'] if len(idxs) == 3 else []) + [final]
             if b['dir'] == 'opt':
-                wl[-1] = 'ValueError: m...'
+                wl[-1] = final.split(':')[0] + ': ...'
         elif b['dir'] == 'first':
             wl = ['skipped output %d' % j for j in range(len(idxs))]
         else:
@@ -183,8 +190,8 @@ def run(tier):
 
     def sig_or_excluded(info):
         return sig(info)
-    parselib._JOB['render_kw'] = {'dirs': {'first': '# doctest: +SKIP', 'last': '# doctest: +SKIP', 'neg': '# doctest: -SKIP',
-                                           'opt': lambda b, sid: OPT_DIRS[sid % len(OPT_DIRS)] if b['shape'] != 'exc' else '# doctest: +ELLIPSIS'},
+    parselib._JOB['render_kw'] = {'dirs': {'first': lambda b, sid: SKIP_DIRS[sid % len(SKIP_DIRS)], 'last': '# doctest: +SKIP', 'neg': '# doctest: -SKIP',
+                                           'opt': lambda b, sid: OPT_DIRS[sid % len(OPT_DIRS)] if b['shape'] != 'exc' else ['# doctest: +ELLIPSIS', '# doctest: +IGNORE_EXCEPTION_DETAIL +ELLIPSIS'][sid % 2]},
                                   'texts': parselib.PLAIN_TEXTS}
     try:
         for blocks, n, limit in BOUNDS[tier]:
